@@ -18,6 +18,8 @@ package ollama
 import (
 	"bytes"
 	"context"
+	"crypto/ed25519"
+	"crypto/rand"
 	"encoding/hex"
 	"encoding/json"
 	"errors"
@@ -100,6 +102,7 @@ type verifRT struct {
 	idx      int // index of the current attempt (advanced by every manifest GET)
 	log      []string
 	gated    bool
+	needAuth bool // every request built by Registry.newRequest must carry the client's bearer token
 	arrived  chan *verifGate
 	onAttempt func(i int) // called when attempt i starts (before its manifest is answered)
 	cancel    func()      // cancels the context of the running pull (scripted cancellation)
@@ -146,6 +149,12 @@ func (rt *verifRT) RoundTrip(req *http.Request) (*http.Response, error) {
 		req.Body.Close()
 	}
 	parts := strings.Split(strings.TrimPrefix(req.URL.Path, "/"), "/")
+	if rt.needAuth && !(req.Method == "GET" && len(parts) >= 5 && parts[3] == "blobs") && !strings.HasPrefix(req.Header.Get("Authorization"), "Bearer ") {
+		rt.mu.Lock()
+		rt.log = append(rt.log, "unauthenticated "+req.Method+" "+req.URL.Path)
+		rt.mu.Unlock()
+		return verifErrResp(req, 401, "UNAUTHORIZED"), nil
+	}
 	// v2/<ns>/<model>/<kind>/<ref>
 	kind, ref := "", ""
 	if len(parts) >= 5 {
@@ -398,7 +407,7 @@ func verifSnap(dir string) map[string]any {
 }
 
 // VerifHandler, when set (by the bridge in package server), runs one "POST /api/pull" through registry.Local.
-var VerifHandler func(ctx context.Context, rc *Registry, name string) (status int, body string)
+var VerifHandler func(ctx context.Context, rc *Registry, name string, stream bool) (status int, body string)
 
 func verifPre(cache *blob.DiskCache, dir string, pre []any) {
 	for _, p := range pre {
@@ -455,6 +464,11 @@ func verifPull(c map[string]any) any {
 	rt := &verifRT{attempts: attempts, arrived: make(chan *verifGate, 1024)}
 	rc := &Registry{Cache: cache, HTTPClient: &http.Client{Transport: rt}, MaxStreams: int(c["max_streams"].(float64)),
 		ChunkingThreshold: int64(c["threshold"].(float64))}
+	if a, _ := c["auth"].(bool); a {
+		_, priv, _ := ed25519.GenerateKey(rand.Reader)
+		rc.Key = &priv
+		rt.needAuth = true
+	}
 	if ms, ok := c["read_timeout_ms"].(float64); ok {
 		rc.ReadTimeout = time.Duration(ms) * time.Millisecond
 	}
@@ -569,7 +583,11 @@ func verifPull(c map[string]any) any {
 		}
 		status, body := 0, "no handler"
 		if VerifHandler != nil {
-			status, body = VerifHandler(hctx, rc, name)
+			stream := true
+			if b, ok := c["stream"].(bool); ok {
+				stream = b
+			}
+			status, body = VerifHandler(hctx, rc, name, stream)
 		}
 		for _, s := range stops {
 			close(s)
@@ -579,6 +597,9 @@ func verifPull(c map[string]any) any {
 		out["handler_body"] = body
 		out["snaps"] = snaps
 		out["attempts_made"] = rt.idx
+		if d, err := cache.Resolve(strings.TrimPrefix(name, "http://")); err == nil {
+			out["resolve"] = fmt.Sprintf("%x", d.Sum())
+		}
 		out["log"] = rt.log
 		return out
 	}
@@ -665,6 +686,11 @@ func verifPushCase(c map[string]any) any {
 	defer func() { verifPush = nil }()
 	rt := &verifRT{arrived: make(chan *verifGate, 16)}
 	rc := &Registry{Cache: cache, HTTPClient: &http.Client{Transport: rt}, MaxStreams: int(c["max_streams"].(float64))}
+	if a, _ := c["auth"].(bool); a {
+		_, priv, _ := ed25519.GenerateKey(rand.Reader)
+		rc.Key = &priv
+		rt.needAuth = true
+	}
 	perr := rc.Push(context.Background(), name, nil)
 	o := map[string]any{"err": verifErrClass(perr), "log": rt.log}
 	if perr != nil {
